@@ -70,9 +70,10 @@ def gen(rng, tier):
         k = rng.randint(4, 12)
         trees = [swapped(ref) for _i in range(k)]
         threads = rng.choice([2, 4, 8, 16])
-        case = {"op": Sym("tbetaxa"), "ref": T(ref), "trees": [T(t) for t in trees], "threads": threads,
+        tables = rng.choice(["both", "both", "taxa", "branches"])
+        case = {"op": Sym("tbetaxa"), "tables": Sym(tables), "ref": T(ref), "trees": [T(t) for t in trees], "threads": threads,
                 "badkind": Sym("none"), "badposs": [], "tips": False}
-        out.append({"sx": sx(case), "meta": {"op": "tbetaxa", "threads": threads, "bad": "none", "ntrees": k, "nbad": 0, "ntips": ntips}})
+        out.append({"sx": sx(case), "meta": {"op": "tbetaxa", "threads": threads, "bad": "none", "ntrees": k, "nbad": 0, "ntips": ntips, "tables": tables}})
     return out
 
 def extra(tier, seed, st):
